@@ -92,10 +92,11 @@ class Spec:
         self.upgraded = upgraded
         self.sids = sids
         self.promised = promised
+        self.cfg = {}            # H2Configuration options of the connection under test (subclasses may set them)
         self.menu = local_menu(client, sids, promised) + peer_menu(client, sids, promised) + ["cleanup"]
 
     def initial(self):
-        st = LState(self.client, self.upgraded)
+        st = LState(self.client, self.upgraded, **self.cfg)
         self.init_extra(st)
         return [("upgraded" if self.upgraded else "handshaken", st)]
 
